@@ -69,14 +69,24 @@ fn poll_cap(tier_thorough: bool) -> u64 {
 pub fn case(tape: &[u32]) -> CaseOutcome {
     let thorough = std::env::var("VERIF_TIER").map(|t| t == "thorough").unwrap_or(false);
     let cap = poll_cap(thorough);
-    let mut t = Tape::new(tape);
+    let (aux, main) = split_tape(tape);
+    let mut a = Tape::new(&aux);
+    let mut t = Tape::new(&main);
     let mut cfg = GenCfg::fragment();
     cfg.tick = true;
     cfg.max_stanzas = 4;
-    cfg.fault = t.chance(1, 6);
-    let program = make_program(&mut t, &cfg);
+    cfg.fault = a.chance(1, 6);
+    let source = pysrc::gen_source(&mut a);
+    cfg.scoped_heavy = a.chance(1, 2);
+    let program = if a.chance(1, 4) {
+        // scoped-variable scenarios: scopes reached through list elements and stored links
+        let (prog, _) = super::c04::scenario(&mut t, false);
+        let printed = crate::dsl::print_canonical(&prog);
+        Program { gen: crate::gen::Generated { prog, globals: Default::default(), features: Default::default(), fault: None, fault_id: None, fault_pair: None }, printed }
+    } else {
+        make_program(&mut t, &cfg)
+    };
     let dsl = &program.printed.text;
-    let source = pysrc::gen_source(&mut t);
     let file = match load_valid("C11", dsl) {
         Ok(f) => f,
         Err(o) => return o,
@@ -196,7 +206,7 @@ pub fn case(tape: &[u32]) -> CaseOutcome {
 }
 
 pub fn spec(tier: &str) -> Spec {
-    let mut s = Spec::new("C11", tier, 3_000, 40_000, 500);
+    let mut s = Spec::new("C11", tier, 3_000, 40_000, 900);
     s.level = "fault_enumeration";
     s.exhaustive = true;
     s.rule = "generated programs (order-insensitive fragment, loops, scans, shorthands, calls of a harness-registered (tick) function, a sixth with an injected run-time fault) x one tree x {strict, lazy}. Per pair: the uncancelled run is made with a counting flag (N polls) and with NoCancellation (results must be equal), N must reach the reference interpreter's count of executed statements + attributes + scan iterations (+ matches in lazy mode), and then for EVERY k = 1..N the run is repeated with a flag that fails from the k-th poll on: the result must be ExecutionError::Cancelled itself, exactly k polls must have been made and no (tick) call may be evaluated afterwards. Pairs with N above 400 (quick) / 2000 (thorough) polls are skipped and counted. evaluations = executions incl. every k; exhaustive refers to the k dimension of each explored pair. Non-trivial pair: N >= 5 and the run iterates a loop or scan or is lazy. Distinct = fingerprint of (DSL text, source).".into();
